@@ -2,7 +2,7 @@
     unit, list, prod, sumbool and sumor map to the OCaml types; N, positive, Z and nat stay the
     extracted inductive types. No [Extract Constant], no further [Extract Inductive]. *)
 From Coq Require Import Extraction ExtrOcamlBasic.
-From AnemoVerif Require Import Base Utf8 Bincode Status Wire SizeLimit Timeout AuthLayer Inflight Gcra Router Codegen.
+From AnemoVerif Require Import Base Utf8 Bincode Status Wire SizeLimit Timeout AuthLayer Inflight Gcra Router Codegen ActivePeers MutualDial.
 
 Extraction Language OCaml.
 
@@ -24,4 +24,7 @@ Separate Extraction
   Router.parse_pattern Router.build Router.compatible
   Codegen.client_path Codegen.server_path Codegen.service_name Codegen.server_select
   Codegen.status_into_response Codegen.status_from_response Codegen.typed_call
-  Codegen.server_unary Codegen.client_unary.
+  Codegen.server_unary Codegen.client_unary
+  ActivePeers.step ActivePeers.run ActivePeers.peers ActivePeers.tie_break ActivePeers.empty
+  MutualDial.reach MutualDial.do_step MutualDial.enabled MutualDial.terminal MutualDial.init
+  MutualDial.all_labels MutualDial.survivor MutualDial.converged.
